@@ -5,7 +5,10 @@
 //
 // Operators marked silent build shapes the statement does not speak about (identity
 // without separator, empty identity string, lower-case attribute types, a scope or a store
-// listed twice in one statement): no accept/reject verdict is asserted for them.
+// listed twice in one statement, and the rules listed in statementSilent: unknown override
+// type / action, no scopes): no accept/reject verdict is asserted for them, they only have
+// to be survived (no panic, level invariant), and combined with a decisive edit the
+// document must still be rejected.
 package c09
 
 import (
@@ -490,6 +493,11 @@ func buildOperators() []operator {
 	for _, o := range silent {
 		o.silent = true
 		ops = append(ops, o)
+	}
+	for i := range ops {
+		if _, unstated := statementSilent[ops[i].name]; unstated {
+			ops[i].silent = true
+		}
 	}
 	return ops
 }
